@@ -203,6 +203,8 @@ def kinds_of(c):
             ks.append(("ensures", text + " | " + label))
     if c.raises is not None:
         ks.append(("raises", "raises table"))
+    if getattr(c, "may_raise", None) is not None:
+        ks.append(("raises-only", "raises only " + ", ".join(c.may_raise)))
     if c.frame:
         ks.append(("frame", "frame"))
     return ks
